@@ -571,6 +571,28 @@ func runC04(c *Ctx) {
 				c.check(inClosure && direct, schedOnce, "runs the callback", schedOnce.Pos(), "the callback is run on expiry and at once for a non-positive delay", fmt.Sprintf("ScheduleOnce does not run the user's function (on expiry=%v, at once for delay <= 0=%v): a scheduled callback never runs", inClosure, direct))
 			}
 		}
+		// a repeating schedule has a positive interval: with zero, ScheduleOnce runs the wrapper at once, which schedules
+		// itself again at once - unbounded recursion instead of "at least one interval apart"
+		{
+			okPos, nDirect := true, 0
+			for _, call := range callsToFn(schedRep, schedOnce) {
+				nDirect++
+				pos := false
+				for _, l := range guardsOf(call.(ssa.Instruction).Block()) {
+					op, x, y, ok := l.cmp()
+					if !ok {
+						continue
+					}
+					if _, isPrm := stripConv(resolveCell(x)).(*ssa.Parameter); isPrm && ((op == token.GTR && isConstInt(y, 0)) || (op == token.GEQ && isConstInt(y, 1))) {
+						pos = true
+					}
+				}
+				if !pos {
+					okPos = false
+				}
+			}
+			c.check(okPos && nDirect > 0, schedRep, "positive interval", schedRep.Pos(), "the repeating schedule is started only for an interval > 0", "ScheduleRepeating accepts an interval that is not strictly positive: with 0 the wrapper runs at once and re-schedules itself at once, recursing until the stack is exhausted")
+		}
 		// Cancel: stateReady is recorded exactly when Unset succeeded (a failed Unset leaves the timerfd armed: the timer
 		// is still scheduled; a successful one leaves nothing due: Scheduled() must say so and a new schedule be accepted)
 		{
